@@ -21,10 +21,14 @@ pub fn rename<P: AsRef<str>, Q: AsRef<str>>(a: P, b: Q) -> io::Result<()> {
 }
 pub fn remove_file<P: AsRef<str>>(a: P) -> io::Result<()> { match find(a.as_ref()) { None => Err(nf()), Some(i) => { if alive() { fs().remove(i); } Ok(()) } } }
 pub fn create_dir_all<P: AsRef<str>>(_a: P) -> io::Result<()> { Ok(()) }
+pub struct OsName { s: String }
+impl OsName { pub fn into_string(self) -> Result<String, ()> { Ok(self.s) } }
+pub struct PathBuf { s: String }
+impl PathBuf { pub fn to_str(&self) -> Option<&str> { Some(&self.s) } }
 pub struct DirEntry { p: String }
 impl DirEntry {
-    pub fn file_name(&self) -> std::ffi::OsString { let n = self.p.rsplit('/').next().unwrap().to_string(); std::ffi::OsString::from(n) }
-    pub fn path(&self) -> std::path::PathBuf { std::path::PathBuf::from(self.p.clone()) }
+    pub fn file_name(&self) -> OsName { let mut i = self.p.len(); let b = self.p.as_bytes(); while i > 0 && b[i - 1] != b'/' { i -= 1; } OsName { s: self.p[i..].to_string() } }
+    pub fn path(&self) -> PathBuf { PathBuf { s: self.p.clone() } }
     pub fn metadata(&self) -> io::Result<Metadata> { metadata(&self.p) }
 }
 pub fn read_dir<P: AsRef<str>>(d: P) -> io::Result<std::vec::IntoIter<io::Result<DirEntry>>> {
